@@ -328,9 +328,17 @@ theorem inv_throwAt (cfg : Cfg) (s : St) (e : Exc) (h : Inv s) : Inv (throwAt cf
   split
   · -- poolWait
     rename_i hp
-    apply inv_connPhaseExit
-    · constructor <;> simp_all [core, activePc, Pc.isDone, List.mem_filter]
-    · exact clean_of_waiting h0 hp
+    have hi : Inv { s with poolQ := s.poolQ.filter (· ≠ .R) } := by
+      constructor <;> simp_all [core, activePc, Pc.isDone, List.mem_filter]
+    have hcl : Clean { s with poolQ := s.poolQ.filter (· ≠ .R) } := clean_of_waiting h0 hp
+    simp only []
+    split
+    · apply inv_connPhaseExit
+      · exact inv_releaseWaiter cfg _ (Inv.of_core rfl hi)
+      · obtain ⟨c1, c2, c3, c4⟩ := hcl
+        refine ⟨by simpa using c1, by simpa using c2, by simpa using c3, ?_⟩
+        intro hm; exact c4 (by simpa using mem_releaseWaiter_poolQ _ _ _ hm)
+    · exact inv_connPhaseExit _ _ hi hcl
   · -- dnsOwner
     rename_i hp
     have hi : Inv { s with dnsWaitR := false } := by
